@@ -1,0 +1,40 @@
+//go:build verif
+
+package verifexport
+
+import (
+	"time"
+
+	"go.minekube.com/gate/pkg/internal/addrquota"
+	"go.minekube.com/gate/pkg/internal/packetlimiter"
+)
+
+// Quota is addrquota.Quota.
+type Quota = addrquota.Quota
+
+// NewQuota is addrquota.NewQuota.
+func NewQuota(eventsPerSecond float32, burst, maxEntries int) *Quota {
+	return addrquota.NewQuota(eventsPerSecond, burst, maxEntries)
+}
+
+// QuotaIPKey is addrquota's bucket key of an address.
+func QuotaIPKey(ip string) string { return addrquota.VerifIPKey(ip) }
+
+// PacketLimiter is packetlimiter.Limiter.
+type PacketLimiter = packetlimiter.Limiter
+
+// NewPacketLimiter is packetlimiter.New.
+func NewPacketLimiter(packetsPerSecond, bytesPerSecond int, window time.Duration) *PacketLimiter {
+	return packetlimiter.New(packetsPerSecond, bytesPerSecond, window)
+}
+
+// SetPacketLimiterClock replaces the clock of PacketLimiter.Account (nil: wall clock).
+func SetPacketLimiterClock(f func() int64) { packetlimiter.VerifSetClock(f) }
+
+// PacketCounter is the sliding-window counter behind PacketLimiter.
+type PacketCounter = packetlimiter.VerifCounter
+
+// NewPacketCounter is packetlimiter's newCounter.
+func NewPacketCounter(interval time.Duration) *PacketCounter {
+	return packetlimiter.VerifNewCounter(interval)
+}
